@@ -64,6 +64,9 @@ type c06src struct {
 	cancel  bool // ... and the context is cancelled at that moment
 	content map[peer.ID]c06entry
 	fetches int
+	// cancelFor: a FetchAll made with this context finds it cancelled (other
+	// callers are served normally)
+	cancelFor context.Context
 }
 
 func (s *c06src) String() string { return s.name }
@@ -73,6 +76,10 @@ func (s *c06src) mk(pid peer.ID, ti int) *model.ProviderInfo {
 }
 
 func (s *c06src) FetchAll(ctx context.Context) ([]*model.ProviderInfo, error) {
+	if s.cancelFor != nil && ctx == s.cancelFor {
+		s.ctx.cancelled = true
+		return nil, context.Canceled
+	}
 	if s.fail {
 		if s.cancel {
 			s.ctx.cancelled = true
@@ -444,4 +451,82 @@ func VerifC06_MergeThreshold() {
 		verif_Assert(get(pid) == t2[i], "after the update map is merged every provider still shows its newest record")
 	}
 	verif_Assert(len(w.pc.List()) == 3 && w.pc.Len() >= 3, "all providers are listed")
+}
+
+// C06: a lookup miss whose insertion crosses the merge threshold rebuilds the
+// main map: every provider already cached still shows its newest record
+// afterwards (the update map wins over the old main map), including records
+// and negative entries that only became visible at the last refresh.
+func VerifC06_MissMergeKeepsNewest() {
+	old := c06pids
+	c06pids = []peer.ID{"A", "B"}
+	defer func() { c06pids = old }()
+	w := c06new()
+	set := func(ta, tb int) {
+		for i, ti := range []int{ta, tb} {
+			w.srcs[0].content[c06pids[i]] = c06entry{present: ti > 0, ti: ti}
+			w.srcs[1].content[c06pids[i]] = c06entry{}
+		}
+		w.cx.cancelled = false
+		verif_Assume(w.pc.Refresh(w.cx) == nil)
+	}
+	get := func(pid peer.ID) int {
+		got, err := w.pc.Get(context.Background(), pid)
+		verif_Assert(err == nil, "lookup succeeds")
+		if got == nil {
+			return -1
+		}
+		return c06timeIdx(got.LastAdvertisementTime)
+	}
+	set(1, 1) // both merged into the (empty) main map
+	adv := verif_Choose("advanced", 0, 1)
+	t := []int{1, 1}
+	t[adv] = 2 + verif_Choose("by", 0, 1)
+	set(t[0], t[1]) // one provider advances: kept in the update map (1*2 <= 2*2)
+	verif_Assert(get(c06pids[adv]) == t[adv], "an updated provider is visible after the refresh")
+	// a lookup miss for a third provider, found at a source or not
+	q := peer.ID("Q")
+	if verif_Bool("missFound") {
+		w.srcs[1].content[q] = c06entry{present: true, ti: 1}
+	}
+	before := w.fetches()
+	_, err := w.pc.Get(context.Background(), q)
+	verif_Assert(err == nil && w.fetches() > before, "the unknown provider is looked up at the sources")
+	verif_Reach("miss merged")
+	for i, pid := range c06pids {
+		verif_Assert(get(pid) == t[i], "after a lookup miss rebuilt the main map every cached provider still shows its newest record")
+	}
+	verif_Assert(len(w.pc.List()) >= 2, "the cached providers are still listed")
+}
+
+// C06: two overlapping refreshes, the first of which is cancelled part-way
+// (after a source already advanced a provider): the second one, which waited
+// for the writer slot, completes without error and therefore must leave the
+// newest records visible — a cancelled refresh does not count as a completed one.
+func VerifC06_OverlappingRefreshCancelled() {
+	c06pids = []peer.ID{"P"}
+	w := c06new()
+	w.seed() // P at time 1
+	w.srcs[0].content["P"] = c06entry{present: true, ti: 2}
+	w.srcs[1].content["P"] = c06entry{present: verif_Bool("s2ReportsP"), ti: 1}
+	w.srcs[1].cancelFor = w.cx // the first refresh is cancelled while asking the second source
+	errs := make(chan error, 2)
+	var err2 error
+	go func() {
+		w.cx.cancelled = false
+		errs <- w.pc.Refresh(w.cx)
+	}()
+	go func() {
+		err2 = w.pc.Refresh(context.Background())
+		errs <- err2
+	}()
+	<-errs
+	<-errs
+	verif_Reach("both done")
+	verif_Assert(err2 == nil, "a refresh whose context is live completes without error")
+	got, err := w.pc.Get(context.Background(), "P")
+	verif_Assert(err == nil && got != nil, "the cached provider is still there")
+	if got != nil && err2 == nil {
+		verif_Assert(c06timeIdx(got.LastAdvertisementTime) == 2, "a refresh that completes without error leaves the newest record visible, even if it overlapped a cancelled one")
+	}
 }
